@@ -125,7 +125,16 @@ func (o prodOp) applyReal(m *ast.DataMessage) (res *ast.DataMessage, pan string)
 	case "setw":
 		return m.SetWaitBit(o.b), ""
 	case "sess":
-		return m.SetSessionIDAndSystemBytes(o.id, append([]byte{}, o.buf...)), ""
+		// the argument is a window into a larger buffer of the caller (as a slice of a receive frame or of a scratch
+		// array is: spare capacity behind it), and the caller uses that buffer again as soon as the call has returned
+		frame := bytes.Repeat([]byte{0xEE}, len(o.buf)+12)
+		arg := frame[2 : 2+len(o.buf)]
+		copy(arg, o.buf)
+		res = m.SetSessionIDAndSystemBytes(o.id, arg)
+		for j := range frame {
+			frame[j] = 0xA5
+		}
+		return res, ""
 	default:
 		g := map[string]interface{}{}
 		for k, v := range o.fill {
